@@ -39,9 +39,10 @@ RULE = (
 )
 BOUNDS = {
     "quick": {"max_rows": 2, "D": [1, 2], "sweeps": "3, then reset_model() and 1 more", "deviation_bound": 0, "deviation_datasets": 0,
-              "whole_run_scripts": "default pattern; every gamma draw x0.002; every gamma draw x500 (precisions driven into both clipping bounds)"},
+              "whole_run_scripts": "default pattern; every gamma draw x0.002; every gamma draw x500 (precisions driven into both clipping bounds)",
+              "sparse_large_probes": "4097 and 5000 observations, D=2, 3 sweeps: fitted values vs parameters after every block, export"},
     "thorough": {"max_rows": 3, "D": [1, 2, 3], "sweeps": "3, then reset_model() and 1 more", "deviation_bound": 1, "deviation_datasets": "all datasets with <= 2 rows, D=2",
-                 "whole_run_scripts": "as quick"},
+                 "whole_run_scripts": "as quick", "sparse_large_probes": "as quick"},
 }
 ASSUMPTIONS = [
     "numpy's Generator.normal / Generator.gamma are trusted to sample the distribution whose parameters they are given",
@@ -551,6 +552,67 @@ def execute(ds, D, deviation, sweeps):
     return out, n_blocks, len(rec.records), rec, mvns
 
 
+def fitted_vector(S, cl, d1, d2):
+    """vectorised twin of fitted() for the large probe (index -1 = control = all-zero row)"""
+    pad = lambda a: np.concatenate([np.asarray(a, dtype=float), np.zeros((1,) + np.asarray(a).shape[1:])])  # noqa: E731
+    V0, V1, V2 = pad(S["V0"]), pad(S["V1"]), pad(S["V2"])
+    W = np.asarray(S["W"], dtype=float)[cl]
+    return (S["alpha"] + np.asarray(S["W0"], dtype=float)[cl] + V0[d1] + V0[d2] + np.sum(W * (V1[d1] + V1[d2]), -1)
+            + np.sum(W * V2[d1] * V2[d2], -1))
+
+
+def execute_large(n_rows, D, sweeps):
+    """Sparse probe far outside the enumerated sizes: n_rows observations (row types cycled), scripted draws,
+    only the two clauses that need no per-row derivation: fitted values == parameters after every block, and the export."""
+    out = []
+    rt = row_types()
+    ds = tuple((7 * k + k // len(rt)) % len(rt) for k in range(n_rows))
+    screen = build_screen(ds)
+    _, _, es = space()
+    model = SC.SparseDrugCombo(experiment_space=es, n_embedding_dimensions=D)
+    model.add_observations(screen.subset_observed())
+    wm = model.wrapped_model
+    y, cl, d1, d2 = (np.asarray(a) for a in wm.encode_obs())
+    cl, d1, d2 = cl.astype(int), d1.astype(int), d2.astype(int)
+    rec = Recorder(wm, None)
+    model.set_rng(rec)
+    wm.rng = rec
+    order = []
+    for blk, meth in STEP_METHODS.items():
+        real = getattr(wm, meth)
+
+        def make(blk=blk, real=real):
+            def wrapped(*a, **k):
+                rec.block = blk
+                try:
+                    return real(*a, **k)
+                finally:
+                    post = rec.snapshot()
+                    order.append(blk)
+                    mu = fitted_vector(post, cl, d1, d2)
+                    bad = np.flatnonzero(~(np.abs(post["Mu"] - mu) <= TOL * (1 + np.abs(mu))))
+                    if len(bad) and not any(o[0].endswith("fitted-values") for o in out):
+                        i = int(bad[0])
+                        out.append((f"{blk}|fitted-values", f"{n_rows} observations: after block {blk} the running fitted value of observation {i} "
+                                                              f"is {post['Mu'][i]}, the parameters imply {mu[i]} ({len(bad)} rows differ)"))
+                    rec.block = None
+            return wrapped
+
+        setattr(wm, meth, make())
+    with Patches(rec):
+        for s_ in range(sweeps):
+            del order[:]
+            model.step()
+            if order != BLOCKS:
+                out.append(("order", f"sweep {s_}: blocks visited {order}, documented order is {BLOCKS}"))
+            th = model.get_model_state()
+            pm = np.asarray(th.predict_conditional_mean(screen.subset_observed()), dtype=float)
+            if not close(pm, np.asarray(wm.Mu, dtype=float)) and not any(o[0] == "export|mean" for o in out):
+                i = int(np.argmax(np.abs(pm - np.asarray(wm.Mu, dtype=float))))
+                out.append(("export|mean", f"{n_rows} observations, sweep {s_}: exported sample predicts {pm[i]} for training experiment {i}, sampler's fitted value is {float(wm.Mu[i])}"))
+    return out, len(BLOCKS) * sweeps, rec
+
+
 def check_mvn_sampler(pairs, out):
     """z -> x is affine: x(0) = Q^-1 b and A A' = Q^-1 for A = [x(e_i) - x(0)]."""
     real = fast_mvn.sample_mvn_from_precision
@@ -597,9 +659,13 @@ def plan(tier, seed):
         for c in range(0, len(small), 4):
             items.append({"kind": "deviate", "D": 2, "ids": small[c:c + 4]})
     items.append({"kind": "mvn"})
+    for n in LARGE_PROBES:
+        items.append({"kind": "large", "n": n, "D": 2})
     return items
 
 
+# sparse probes (not part of the exhaustive claim): just above a power of two, and a round figure
+LARGE_PROBES = [4097, 5000]
 DEV_VALUES = [{"z": 3.0, "g": 0.01}, {"z": -3.0, "g": 100.0}]
 # whole-run scripts (every gamma draw extreme): drive every precision into its lower / upper clipping bound
 GLOBAL_SCRIPTS = [("all", {"g": 0.002}), ("all", {"g": 500.0})]
@@ -651,6 +717,18 @@ def run_item(item, col, tier):
         for sig, msg in out:
             col.violation(f"C08|{sig}", msg, {"mvn_family": True})
         return
+    if item["kind"] == "large":
+        res, n_blocks, rec = execute_large(item["n"], item["D"], 3)
+        col.evaluations += 1
+        col.states += n_blocks + 1
+        col.transitions += n_blocks
+        col.outcome("large", item["n"], float(rec.wm.prec))
+        col.nontriv("large", item["n"])
+        for sig, msg in res:
+            head = sig.split("|")
+            head[0] = head[0].split("[")[0]
+            col.violation("C08|" + "|".join(head), msg, {"large": item["n"], "D": item["D"]})
+        return
     dss = datasets(b["max_rows"])
     if item["kind"] == "default":
         seen_q = []
@@ -684,6 +762,9 @@ def replay(case, col):
         for sig, msg in out:
             col.violation(f"C08|{sig}", msg, case)
         col.evaluations += 1
+        return
+    if case.get("large"):
+        run_item({"kind": "large", "n": case["large"], "D": case.get("D", 2)}, col, "quick")
         return
     dev = case.get("deviation")
     run_one(col, tuple(case["dataset"]), case["D"], None if dev is None else tuple(dev), case.get("sweeps", 3))
